@@ -8,7 +8,7 @@
 
 using namespace vh;
 
-static long wick_ncases(const std::string& tier) { return tier == "thorough" ? 3000 : 48; }
+static long wick_ncases(const std::string& tier) { return tier == "thorough" ? 20000 : 48; }
 
 static void wick_run(Ctx& c) {
     Rng& r = c.rng;
@@ -22,16 +22,20 @@ static void wick_run(Ctx& c) {
         m.sites.push_back(s); modes += s.norb * s.nspin;
     }
     m.beta = r.logu(0.3, c.thorough() ? 60.0 : 20.0);
-    const bool cold = (c.k % 6 == 5);        // beta*(level spacing) of many hundreds: Boltzmann factors under/overflow, the vertex must still vanish
+    const bool witness18 = (c.k == 9);       // fixed input of finding #18 (DESIGN 9.3): two levels per spin, hopping 0.3, Zeeman splittings 2e-8 and 8e-9, one block
+    if (witness18) { m.sites.clear(); for (int s = 0; s < 2; ++s) { SiteSpec S; S.label = s ? "B" : "A"; S.norb = 1; S.nspin = 2; m.sites.push_back(S); } m.beta = 4.0; }
+    const bool cold = !witness18 && (c.k % 6 == 5);        // beta*(level spacing) of many hundreds: Boltzmann factors under/overflow, the vertex must still vanish
     if (cold) m.beta = r.logu(150, 700);
     std::vector<std::array<int, 3>> modelist;
     for (int s = 0; s < (int)m.sites.size(); ++s) for (int o = 0; o < m.sites[(size_t)s].norb; ++o) for (int z = 0; z < m.sites[(size_t)s].nspin; ++z) modelist.push_back({s, o, z});
     const int N = (int)modelist.size();
     static const char* classes[] = {"generic", "degenerate", "zero", "block-diagonal", "rank-deficient", "integers", "generic", "degenerate"};
     std::string hclass = classes[r.range(0, 7)];
+    if (witness18) hclass = "finding18";
     CMat hm = CMat::Zero(N, N);   // in the order of modelist
     auto amp = [&]() { double re = (hclass == "integers") ? double(r.range(-2, 2)) : r.sym(1.5); if (kComplexBuild && r.coin(0.7)) { double ph = r.uni(0, 2 * M_PI); return re * cd(std::cos(ph), std::sin(ph)); } return cd(re, 0); };
-    if (hclass == "degenerate") { double e = r.coin(0.3) ? 0.0 : r.sym(1.0); for (int a = 0; a < N; ++a) hm(a, a) = e; if (r.coin(0.5) && N >= 2) { cd t = amp(); hm(0, 1) = t; hm(1, 0) = std::conj(t); if (N >= 4) { hm(2, 3) = t; hm(3, 2) = std::conj(t); } } }
+    if (hclass == "finding18") { hm(0, 0) = -0.5 + 1e-8; hm(1, 1) = -0.5 - 1e-8; hm(2, 2) = -0.4 + 4e-9; hm(3, 3) = -0.4 - 4e-9; hm(0, 2) = hm(2, 0) = 0.3; hm(1, 3) = hm(3, 1) = 0.3; }
+    else if (hclass == "degenerate") { double e = r.coin(0.3) ? 0.0 : r.sym(1.0); for (int a = 0; a < N; ++a) hm(a, a) = e; if (r.coin(0.5) && N >= 2) { cd t = amp(); hm(0, 1) = t; hm(1, 0) = std::conj(t); if (N >= 4) { hm(2, 3) = t; hm(3, 2) = std::conj(t); } } }
     else if (hclass == "zero") {}
     else if (hclass == "block-diagonal") { for (int a = 0; a < N; ++a) hm(a, a) = r.sym(1.5); for (int a = 0; a + 1 < N; a += 2) { cd t = amp(); hm(a, a + 1) = t; hm(a + 1, a) = std::conj(t); } }
     else if (hclass == "rank-deficient") { CVec v(N); for (int a = 0; a < N; ++a) v(a) = amp(); hm = v * v.adjoint(); }
@@ -41,7 +45,7 @@ static void wick_run(Ctx& c) {
         for (int b = a + 1; b < N; ++b) if (std::abs(hm(a, b)) > 0) {
             Op o; o.kind = Op::HOP4; o.a = modelist[(size_t)a][0]; o.b = modelist[(size_t)b][0]; o.o1 = modelist[(size_t)a][1]; o.o2 = modelist[(size_t)b][1]; o.s1 = modelist[(size_t)a][2]; o.s2 = modelist[(size_t)b][2]; o.v1 = hm(a, b); m.ops.push_back(o); }
     }
-    int pmode = (!m.balanced_spins() || c.k % 3 == 2) ? PM_IGNORE : PM_DEFAULT;
+    int pmode = (!m.balanced_spins() || c.k % 3 == 2 || witness18) ? PM_IGNORE : PM_DEFAULT;
     Pipeline p; p.build_all(m, pmode);
     const double beta = m.beta;
     c.model = m.describe(); c.canon = m.canon() + "|" + pm_name(pmode) + (cold ? "|cold" : "");
@@ -74,7 +78,7 @@ static void wick_run(Ctx& c) {
         auto rq = [&]() { return (int)r.range(0, N - 1); };
         add({0, 0, 0, 0}); { int a = rq(), b = (a + 1 + (int)r.range(0, N - 2)) % N; add({a, b, b, a}); add({a, b, a, b}); add({a, a, b, b}); }
         int nr = (N == 3 ? 14 : 6) * (c.thorough() ? 2 : 1); for (int t = 0; t < nr; ++t) add({rq(), rq(), rq(), rq()}); }
-    G2Tol gt; gt.prepare(lb.E, beta);
+    G2Tol gt; gt.prepare(lb.E, beta, &lb.block);
     long nres = 0, nonzero_chi = 0;
     auto wn = [&](long n) { return (2 * n + 1) * M_PI / beta; };
     for (auto& q : quads) {
@@ -97,11 +101,11 @@ static void wick_run(Ctx& c) {
             if (pt[0] == pt[2]) { auto x = gtol(q[0], q[2], pt[0]); auto y = gtol(q[1], q[3], pt[1]); t += beta * (x.first * y.second + y.first * x.second + x.second * y.second); }
             if (pt[1] == pt[2]) { auto x = gtol(q[0], q[3], pt[0]); auto y = gtol(q[1], q[2], pt[1]); t += beta * (x.first * y.second + y.first * x.second + x.second * y.second); }
             std::string fk = (pt[0] + pt[1] == -1) ? "bosonic-zero" : ((pt[0] == pt[2] && pt[1] == pt[2]) ? "n1=n2=n3" : (pt[0] == pt[2] ? "n1=n3" : (pt[1] == pt[2] ? "n2=n3" : "generic")));
-            c.cmp("vertex-vanishes", "C12:vertex-vanishes:" + fk, v, cd(0, 0), t, [&] { return qs + ".value(" + std::to_string(pt[0]) + "," + std::to_string(pt[1]) + "," + std::to_string(pt[2]) + ") class " + hclass + " beta=" + fmt(beta) + " chi scale " + fmt(S); });
+            c.cmp("vertex-vanishes", gt.straddle ? std::string("C12:vertex-vanishes:merge-vs-resonance-window") : "C12:vertex-vanishes:" + fk, v, cd(0, 0), t, [&] { return qs + ".value(" + std::to_string(pt[0]) + "," + std::to_string(pt[1]) + "," + std::to_string(pt[2]) + ") class " + hclass + " beta=" + fmt(beta) + " chi scale " + fmt(S); });
         }
     }
     c.count("quadruples", (long)quads.size()); c.count("resonant_terms", nres); c.count("nonvanishing_chi", nonzero_chi);
-    c.features.set("near_coincident_poles", gt.near);
+    c.features.set("near_coincident_poles", gt.near).set("merge_vs_resonance_window", gt.straddle);
     c.nontrivial = nonzero_chi > 0 && nres > 0;
 }
 
